@@ -74,11 +74,26 @@ def lenientTab : BranchTab :=
     | .field _ => { e with nn := true }
     | _ => e)))
 
+partial def namesOf : Tree Lbl → Tree String
+  | .node l ks => .node l.name (ks.map namesOf)
+  | .bad => .bad
+
+/-- the log against the branch tree the walker ran on: no branch skipped, none entered twice, no Exit with branches
+left unless the visitor consumed in the node's Enter/Visit (`judgeRunT`, proved to accept every log of the model
+for every visitor, hence for every Consume schedule) -/
+def judgeWalkT (tst tse : Tree String) (w : Walk) : Option String :=
+  match parseRes w.res with
+  | none => none
+  | some r =>
+    match judgeRunT (schedVisitor id w.sc.sel w.sc.act) (if w.sc.structural then tst else tse) w.log r with
+    | some msg => some s!"walk-{msg} {w.sc.text}"
+    | none => none
+
 def judgeWalk (w : Walk) : Option String :=
   match parseRes w.res with
   | none => some s!"walk-{w.res} {w.sc.text}"
   | some r =>
-    match judgeRun (scripted w.sc.k w.sc.act) w.log r with
+    match judgeRun (schedVisitor id w.sc.sel w.sc.act) w.log r with
     | some msg => some s!"walk-{msg} {w.sc.text}"
     | none => none
 
@@ -106,16 +121,32 @@ def judge (items : List Sexp) : String :=
             | .atom "sexp=" => false
             | _ => true)).drop 1
           match sx with
-          | [] => "ok"      -- suite c11pg: no value, only the protocol is judged
+          | [] =>
+            -- suite c11pg: the branch tree is given explicitly
+            let tx := (tail.dropWhile (fun s => match s with
+              | .atom "tree=" => false
+              | _ => true)).drop 1
+            match tx with
+            | [tsx] =>
+              match toTree tsx with
+              | some t =>
+                match ws.findSome? (judgeWalkT (namesOf t) (namesOf t)) with
+                | some msg => "reject " ++ msg
+                | none => "ok"
+              | none => "reject bad-output tree"
+            | _ => "ok"
           | [v] =>
             match (toVal v).run 1 with
             | .error e => "reject extractor-schema-mismatch " ++ e
             | .ok (val, _) =>
+              match ws.findSome? (judgeWalkT (namesOf (treeOf T T.structural val)) (namesOf (treeOf T T.semantic val))) with
+              | some msg => "reject " ++ msg
+              | none =>
               let st := treeOf T (schemaTab T) val
               let want := sorted (st.labels.map (·.name))
               let nodesTok := (field rest "nodes").getD "?"
-              let full := ws.find? (fun w => w.sc.structural && w.sc.k == 0)
-              let sem := ws.find? (fun w => !w.sc.structural && w.sc.k == 0)
+              let full := ws.find? (fun w => w.sc.structural && w.sc.text.endsWith ":0:n")
+              let sem := ws.find? (fun w => !w.sc.structural && w.sc.text.endsWith ":0:n")
               match full with
               | none => "ok"
               | some w =>
